@@ -205,8 +205,8 @@ func pkgOf(pkg *packages.Package, e ast.Expr) string {
 	return ""
 }
 
-var syncTypes = map[string]bool{"Mutex": true, "RWMutex": true, "WaitGroup": true, "Once": true, "Cond": true, "NewCond": true, "Locker": true}
-var syncOther = map[string]bool{"Map": true, "Pool": true, "OnceFunc": true, "OnceValue": true, "OnceValues": true}
+var syncTypes = map[string]bool{"Mutex": true, "RWMutex": true, "WaitGroup": true, "Once": true, "Cond": true, "NewCond": true, "Locker": true, "OnceFunc": true, "OnceValue": true, "OnceValues": true}
+var syncOther = map[string]bool{"Map": true, "Pool": true}
 var execFuncs = map[string]bool{"Command": true, "LookPath": true, "CommandContext": true, "Cmd": true}
 
 func conc(pkg *packages.Package, file *ast.File, relName string, r *report) bool {
